@@ -162,6 +162,10 @@ func body(r *explore.Run, sc scenario, rep *report.R) {
 	switch sc.initial {
 	case "hijack", "hijack-ns", "bindable":
 		c1.SetResourceReference(&reference.Composite{APIVersion: xrh.XRGVK.GroupVersion().String(), Kind: xrh.XRGVK.Kind, Name: "x2"})
+	case "hijack-kind":
+		// The reference names another claim's XR under a foreign kind (the
+		// claim CRD only demands that the three strings are present).
+		c1.SetResourceReference(&reference.Composite{APIVersion: "other.example.org/v1", Kind: "XOther", Name: "x2"})
 	case "ref-missing":
 		c1.SetResourceReference(&reference.Composite{APIVersion: xrh.XRGVK.GroupVersion().String(), Kind: xrh.XRGVK.Kind, Name: "c1-pending"})
 	}
@@ -173,7 +177,16 @@ func body(r *explore.Run, sc scenario, rep *report.R) {
 	inj := &xrh.FaultInjector{Run: r, Reads: sc.reads, NotFoundReads: true,
 		// The property quantifies over stale reads of the *claim*: a cache
 		// that has not seen the claim yet answers 404.
-		NotFoundFilter: func(c simkube.Call) bool { return c.Key.Kind == xrh.ClaimGVK.Kind },
+		// For the XR the pinned tree is only safe on the deletion path (see
+		// DESIGN.md 7.5); there a 404 must not lead to touching an XR that
+		// was never read.
+		NotFoundFilter: func(c simkube.Call) bool {
+			if c.Key.Kind == xrh.ClaimGVK.Kind {
+				return true
+			}
+			cm := s.Peek(xrh.ClaimKey("ns", "c1"))
+			return c.Key.Kind == xrh.XRGVK.Kind && cm != nil && cm.GetDeletionTimestamp() != nil
+		},
 		Filter:         func(c simkube.Call) bool { return c.Client == "claim" }}
 	s.Inj = inj
 	cc := &lagClient{Client: s.Client("claim"), r: r, armed: &armed, taken: &lagTaken}
@@ -194,7 +207,21 @@ func body(r *explore.Run, sc scenario, rep *report.R) {
 		if w.firstRef == "" {
 			panic(explore.HarnessError{Msg: "preparation: claim not bound"})
 		}
-	case "hijack", "hijack-ns":
+	case "hijack-after-bound":
+		// The claim was bound (it carries the controller's finalizer); then
+		// its resourceRef was edited to name another claim's XR.
+		for i := 0; i < 4; i++ {
+			xrh.Reconcile(crec.r, nn)
+			for _, x := range s.All(xrh.XRGVK.GroupKind()) {
+				xrh.Reconcile(xrec, types.NamespacedName{Name: x.GetName()})
+			}
+		}
+		s.Mutate(xrh.ClaimKey("ns", "c1"), func(u *unstructured.Unstructured) {
+			_ = unstructured.SetNestedField(u.Object, "x2", "spec", "resourceRef", "name")
+		})
+		w.firstRef = "x2"
+		fallthrough
+	case "hijack", "hijack-ns", "hijack-kind":
 		// The XR belongs to another claim: a different name, or the same
 		// name in another namespace.
 		ons, oname := "ns", "c2"
@@ -282,12 +309,12 @@ func body(r *explore.Run, sc scenario, rep *report.R) {
 	xs := w.xrsNaming("ns/c1")
 	cm := s.Peek(xrh.ClaimKey("ns", "c1"))
 	switch {
-	case sc.initial == "hijack" || sc.initial == "hijack-ns":
+	case strings.HasPrefix(sc.initial, "hijack"):
 		x2 := s.Peek(xrh.XRKey("x2"))
 		if x2 == nil || x2.GetResourceVersion() != x2Before.GetResourceVersion() && claimRefOf(x2) != claimRefOf(x2Before) {
 			r.Failf("J4/hijack/final", "XR x2 bound to %s was changed or removed on behalf of ns/c1", claimRefOf(x2Before))
 		}
-		if len(xs) != 0 {
+		if len(xs) != 0 && sc.initial != "hijack-after-bound" {
 			r.Failf("J4/hijack/bound", "an XR names ns/c1 although its resourceRef pointed at another claim's XR: %v", xs)
 		}
 	case cm != nil && cm.GetDeletionTimestamp() == nil && !deleted:
@@ -301,7 +328,13 @@ func body(r *explore.Run, sc scenario, rep *report.R) {
 
 	// A claim that is gone must not leave an XR behind that names it: nobody
 	// would ever delete it.
-	if cm == nil && sc.initial != "hijack" && sc.initial != "hijack-ns" && len(xs) > 0 {
+	xr404 := false
+	for _, t := range inj.Taken {
+		if strings.HasPrefix(t, "get "+xrh.XRGVK.Kind) && strings.HasSuffix(t, "not-found") {
+			xr404 = true // the deleted claim's cache had not seen its XR: the known gap of DESIGN.md 7.5
+		}
+	}
+	if cm == nil && !strings.HasPrefix(sc.initial, "hijack") && len(xs) > 0 && !xr404 {
 		r.Failf("orphan/xr-for-deleted-claim/"+fmt.Sprintf("ssa=%v", sc.ssa), "claim ns/c1 no longer exists but XR(s) %v name it (created on its behalf from a stale read: %v)", xs, lagTaken)
 	}
 
@@ -335,7 +368,7 @@ func TestCheck(t *testing.T) {
 		[]string{"simkube", "structured-merge-diff (real)"},
 	)
 	var scs []scenario
-	initials := []string{"fresh", "bound", "hijack", "hijack-ns", "bindable", "ref-missing", "deleted"}
+	initials := []string{"fresh", "bound", "hijack", "hijack-ns", "hijack-kind", "hijack-after-bound", "bindable", "ref-missing", "deleted"}
 	for _, ssa := range []bool{false, true} {
 		for _, in := range initials {
 			if report.Thorough() {
